@@ -162,6 +162,10 @@ def run_kani(ov, target_dir, hs, tier_cfg, out_json, logfile, playback=False, jo
     mem = max([h.mem_gb or tier_cfg["mem_gb"] for h in hs])
     if playback:
         mem = 48  # kani-driver itself parses the JSON trace in memory
+        if tier_cfg.get("playback_property"):
+            # ask CBMC for the trace of ONE failed check only (measured: 26 s instead of > 30 min
+            # for traces of every failed check and every satisfied cover); must be the last flag
+            cmd += ["--cbmc-args", "--property", tier_cfg["playback_property"]]
     env = dict(os.environ)
     env.update(ov_mod.ENV_OFFLINE)
     env.pop("RUSTFLAGS", None)
